@@ -1150,10 +1150,21 @@ func (t *State) procTodoBlkForWalk(todoBlocks []*pb.InternalBlock) (err error) {
 		batch := t.ldb.NewBatch()
 
 		// 执行区块里面的交易
+		// an output can be spent only once inside a block: the spends of earlier transactions are
+		// still in the batch, so the per-transaction checks below cannot see them (as in Play)
+		utxoKeysInBlock := map[string]bool{}
 		idx, length := 0, len(todoBlk.Transactions)
 		for idx < length {
 			tx = todoBlk.Transactions[idx]
 			showTxId = hex.EncodeToString(tx.Txid)
+			for _, txInput := range tx.TxInputs {
+				utxoKey := utxo.GenUtxoKey(txInput.FromAddr, txInput.RefTxid, txInput.RefOffset)
+				if utxoKeysInBlock[utxoKey] {
+					t.log.Warn("found duplicated utxo in same block", "utxoKey", utxoKey, "txid", showTxId)
+					return ErrUTXODuplicated
+				}
+				utxoKeysInBlock[utxoKey] = true
+			}
 			t.log.Debug("procTodoBlkForWalk", "txid", showTxId, "autogen", t.verifyAutogenTxValid(tx), "coinbase", tx.Coinbase)
 			// 校验定时交易合法性
 			if t.verifyAutogenTxValid(tx) && !tx.Coinbase {
